@@ -292,7 +292,23 @@ def _cohort_corr(rng, j):
     i["corr"] = dict(flags, fasta_seed=r.getrandbits(30) if fasta else None, lowcov=lowcov,
                      defaults=r.random() < .3)
     c["tag"] = "corr-" + ("fasta" if fasta else "gccol" if i["gc_col"] else "edgeonly") + ("-lowcov" if lowcov else "")
+    if j % 3 == 1:
+        # through `cnvkit.py reference`: the --no-* flags are what switches a correction off
+        flags = [f for f, k in (("--no-gc", "do_gc"), ("--no-edge", "do_edge"), ("--no-rmask", "do_rmask")) if not flags_of(i)[k]]
+        r.shuffle(flags)
+        i["cli"] = True
+        i["cli_opts"] = {"form": r.choice(["t_a", "a_t", "mixed", "dir"]), "opts_first": r.random() < .5,
+                         "y": r.choice(["-y", "--male-reference", "--haploid-x-reference"]),
+                         "x": r.choice(["-x", "--sample-sex", "-g", "--gender"]),
+                         "sex_f": r.choice(["Female", "f", "x", "female"]), "sex_m": r.choice(["Male", "m", "y", "male"]),
+                         "o": r.choice(["-o", "--output"]), "long_flat": False, "flags": flags, "fasta": False,
+                         "fasta_seed": 0, "c": "-c"}
+        c["tag"] = "cli-" + c["tag"]
     return c
+
+
+def flags_of(i):
+    return i["corr"]
 
 
 def gen_cases(rng, tier):
@@ -718,8 +734,8 @@ def run_impl(case):
         import io
         quiet = contextlib.redirect_stdout(io.StringIO()) if i.get("cluster") else contextlib.nullcontext()   # (k-means prints)
         if cli:
-            fa = None
-            if cli["fasta"]:
+            fa = fa_corr
+            if cli["fasta"] and not corr:
                 # with a genome the GC / RepeatMasker corrections have something to work on: --no-gc / --no-rmask
                 # (always given in these cases) are then what keeps the result equal to the corrections-off model
                 need = {}
